@@ -200,7 +200,13 @@ pub fn tracegen(opts: &Opts) -> i32 {
             let ek = format!("ek{}", rng.below(2)).into_bytes();
             let ts = 1000 * ecount;
             let expired = rng.chance(1, 2);
-            let len = if rng.chance(1, 3) { rng.range(4100, 4300) } else { rng.range(1, 300) } as usize;
+            // a third of them end within the last 200 bytes of a block (on-disk size = 30 + key + value),
+            // where an extent length derived from any other size formula is off by one block
+            let len = match rng.below(6) {
+                0 => rng.range(4100, 4300),
+                1 | 2 => (4096 * rng.range(1, 3) - 33 - rng.below(200)).max(1),
+                _ => rng.range(1, 300),
+            } as usize;
             let v = value_for(seed.wrapping_mul(77_777).wrapping_add(i), len);
             let inv = tracer.next();
             let r = if expired { st.insert_with_ttl_and_timestamp(&ek, &v, 1, Some(ts)) } else { st.insert_with_timestamp(&ek, &v, Some(ts)) };
